@@ -79,6 +79,13 @@ CHECKS = {
              'round-trip the text through .dbml; SQL side: one COMMENT ON literal per note with quotes neutralised, expressions verbatim inside parentheses. Failures are isolated to a single site before they are reported.',
         note='Tab is excluded (not printable; pyparsing expands it). Texts without a non-blank line are checked for agreement and idempotence only. Three recorded findings (multi-line text in settings position, three consecutive single quotes, multi-line expression in CREATE TABLE) matched by shape predicates.',
         design='DESIGN.md §3 C13'),
+    'C14': dict(
+        level='exploration', technique='metamorphic enumeration: every slot of the writer token stream x every admissible comment form x every content on three base documents; above+trailing pairs; DDL reader on the SQL output',
+        text='A comment of each of 18 contents (quotes, braces, brackets, DBML and SQL look-alikes, multi-line blocks) is injected at every admissible slot of three differently styled / ordered base documents; the parsed content without comments must equal '
+             'the base, the comment must be stored on the element the statement names for that position and nowhere else (trailing wins over above), .dbml must re-parse to the same comments and carry each comment line as a // line, and .sql must read back to the '
+             'statements of the comment-free database with each comment line as a -- line.',
+        note='Admissible positions are a frozen table in verif/props/c14.py. Comment text is compared modulo blanks at line ends. Positions the statement does not name may attach the comment to the adjacent element or drop it.',
+        design='DESIGN.md §3 C14'),
     'C15': dict(
         level='model_checking', technique='two-configuration traversal of the C01 derivation BFS (option on / off), exhaustive property placement product x 5 styles, all flag-flip sequences up to length 3',
         text='Every property-free BFS state and a pack of every C01 product is parsed under both option values and must differ in the flag only; every combination of 0-2 table-body properties at every position and 0-2 column properties '
